@@ -1209,7 +1209,7 @@ def _behaviours(chk, quick):
         chk.add_tlc(r)
         behs += _printed(r.out)
     # deeper behaviours sampled by TLC's simulator from the same generation spec
-    n, depth, scfg = (24, 10, 'Gen_ClientCache_sim_quick.cfg') if quick else (600, 14, 'Gen_ClientCache_sim_thorough.cfg')
+    n, depth, scfg = (24, 10, 'Gen_ClientCache_sim_quick.cfg') if quick else (400, 14, 'Gen_ClientCache_sim_thorough.cfg')
     rs = run_tlc('Gen_ClientCache', scfg, workers=1, timeout=900, simulate='num=%d' % n,
                  depth=depth + 1, seed=chk.seed + 1, deadlock=False)
     if rs.violated or rs.rc != 0:
@@ -1266,7 +1266,7 @@ def run(chk):
     n = 300 if quick else 4000
     traces = pool_map(_random_trace, [(chk.seed * 100003 + i, 40 if quick else 60) for i in range(n)])
     lap('random_traces')
-    nbatch, per_kind = (4, 8) if quick else (16, 100)
+    nbatch, per_kind = (4, 8) if quick else (16, 50)
     e2e = pool_map(_e2e_batch, [(chk.seed * 7919 + i, per_kind, 40 if quick else 500) for i in range(nbatch)])
     aborted = [n['aborted'] for _, n in e2e if n.get('aborted')]
     lap('end_to_end')
